@@ -86,6 +86,20 @@ def run(R):
                 else: b2 = body[:i] + bytes([S.A64[(S.A64.index(body[i]) + 1 + R.rng.randrange(62)) % 64]]) + body[i + 1:]
                 g.append(CS.crypt_op("rn", 0, base, salted(m, b2))); gi.append((m, 12, "salt", "%d of a %d-%s salt" % (i, L, "byte" if raw else "character")))
             groups.append(g); info.append(gi)
+    # cost fields: settings that differ only in a cost parameter must not share their hash part.  The yescrypt family writes N, r, p, t as
+    # variable-length base-64 numbers; values of 49 and more take two characters (seeded/C03d: a decoder that is not injective on them)
+    for tag in (b"$y$", b"$gy$"):
+        base = bytes(R.rng.randrange(0x21, 0x7f) for _ in range(10))
+        salt = S.enc64(bytes(R.rng.randrange(256) for _ in range(12)))
+        rs_ = [1, 2, 8, 47, 48, 49, 50, 51, 52, 63, 64, 111, 112, 113, 114, 115, 176, 177] if quick else list(range(1, 200))
+        g = []; gi = []
+        for r in rs_:
+            st = tag + S.enc_var(47, 0) + S.enc_var(4, 1) + S.enc_var(r, 1) + b"$" + salt
+            g.append(CS.crypt_op("rn", 0, base, st)); gi.append((tag.decode(), 10, "cost", "r=%d" % r))
+        for pp in ([2, 3, 49, 50, 51, 113] if quick else list(range(2, 120))):
+            st = tag + S.enc_var(47, 0) + S.enc_var(7, 1) + S.enc_var(1, 1) + S.enc_var(1, 1) + S.enc_var(pp, 2) + b"$" + salt
+            g.append(CS.crypt_op("rn", 0, base, st)); gi.append((tag.decode(), 10, "cost", "p=%d" % pp))
+        groups.append(g); info.append(gi)
     ops, il, ml = R.run_pair_sharded(groups)
     infos = [x for gi in info for x in gi]
     diffs = compare(R, ops, il, ml, CS.proj_crypt, "perturbation stream")
@@ -116,6 +130,15 @@ def run(R):
         elif kind == "salt":
             if out[-dig:] == base_out[-dig:]:
                 bad.append((op, "%s: changing salt character %s leaves the hash part unchanged" % (m, arg), line))
+    seen_cost = {}
+    for op, (m, n, kind, arg), line in zip(ops, infos, il):
+        if kind != "cost": continue
+        f = fields(line)
+        if f.get("ret") == "NULL": continue
+        part = unhx(f.get("out"))[-43:]
+        if (m, part) in seen_cost and seen_cost[(m, part)][0] != arg:
+            bad.append((seen_cost[(m, part)][1] + " ; " + op, "%s: the settings with %s and %s (same salt, same phrase) give the same hash part" % (m, seen_cost[(m, part)][0], arg), line))
+        seen_cost.setdefault((m, part), (arg, op))
     R.cov["evaluations"] = len(ops)
     R.cov["distinct_nontrivial"] = len(set(ops))
     R.cov["rule"] = ("for every method and phrase lengths %s: single-bit flips (thorough: every bit of every byte for lengths up to 32 and the lengths 64, 72, 73, 128, 129, 511, boundary and random positions for the other lengths; quick: boundary positions 7/8, 71/72, 127/128 and samples), "
